@@ -57,14 +57,36 @@ def coq_sources():
     return sorted(glob.glob(os.path.join(COQ, 'theories', '**', '*.v'), recursive=True))
 
 
+TRANSLATE = os.path.join(ROOT, 'translate')
+GENERATED = os.path.join(COQ, 'theories', 'Generated')
+
+
+def translate_source():
+    """Regenerate coq/theories/Generated/*.v from /repo's working tree with the Go-subset translator.
+    Returns (ok, log).  A group of definitions that has left the subset is written as a file that does not type-check,
+    so that exactly the theorems about it break."""
+    os.makedirs(BUILD, exist_ok=True)
+    with Lock('translate'):
+        binp = os.path.join(BUILD, 'translate-bin')
+        src = os.path.join(TRANSLATE, 'main.go')
+        if not os.path.exists(binp) or os.path.getmtime(binp) < os.path.getmtime(src):
+            rc, out, err = sh([go_cmd(), 'build', '-o', binp, '.'], cwd=TRANSLATE, env=go_env(), timeout=600)
+            if rc != 0:
+                return False, 'the translator does not build: ' + (out + err)[-1500:]
+        rc, out, err = sh([binp, REPO, GENERATED], env=go_env(), timeout=300)
+        return rc == 0, (out + err)[-3000:]
+
+
 def build_coq(clean=False):
-    """Full .vo build of the development (never -vos).  Returns (ok, log, cmd)."""
+    """Full .vo build of the development (never -vos).  Returns (ok, log, cmd).  The generated part of the model is
+    re-derived from /repo first.  make -k: what does not depend on a failing file is built all the same."""
+    tok, tlog = translate_source()
     with Lock('coq'):
-        cmd = 'coq_makefile -f _CoqProject -o Makefile > /dev/null && timeout 3000 make -j16'
+        cmd = 'coq_makefile -f _CoqProject -o Makefile > /dev/null && timeout 3000 make -k -j16'
         if clean:
             sh('test -f Makefile && make clean > /dev/null 2>&1; true', cwd=COQ)
         rc, out, err = sh(cmd, cwd=COQ, timeout=3300)
-        return rc == 0, out + err, 'cd coq && ' + cmd
+        return rc == 0, ('' if tok else 'translate: ' + tlog + '\n') + out + err, 'translate/translate /repo coq/theories/Generated && cd coq && ' + cmd
 
 
 FORBIDDEN = re.compile(r'\b(Admitted|admit|Axioms?|Parameters?|Conjectures?|Unset Guard|Unset Positivity|Unset Universe|bypass_check|'
@@ -161,8 +183,12 @@ def check_props(pid, build_ok):
     cmd = ['timeout', '900', 'coqc', '-Q', 'theories', 'HC', os.path.relpath(vfile, COQ)]
     info['checker_cmd'] = 'cd coq && make -j16 (full .vo build) && ' + ' '.join(cmd)
     if not build_ok:
-        info['log'] = 'development does not build'
-        return info
+        # some file of the development does not compile: this property is affected when its own cone is not up to date
+        with Lock('coq'):
+            rc, out, err = sh(['make', '-q', os.path.relpath(vfile, COQ) + 'o'], cwd=COQ, timeout=600)
+        if rc != 0:
+            info['log'] = 'the development does not build, and Props/%s.v depends on what fails' % pid
+            return info
     with Lock('coq'):
         rc, out, err = sh(cmd, cwd=COQ, timeout=1000)
     info['log'] = (out + err)[-4000:]
@@ -1242,7 +1268,7 @@ def run_check(pid, tier, seed):
         if not chk_ok:
             pinfo['ok'] = False
             pinfo['log'] = (pinfo.get('log') or '') + '\n' + chk_summary
-    mok, mlog = build_model() if build_ok else (False, 'coq build failed')
+    mok, mlog = build_model()   # needs the model files only; fails by itself when they do not compile
     hok, hlog, _ = build_harness()
     if not hok:
         print('ERROR: the harness does not build against /repo:\n' + hlog[-3000:])
@@ -1272,10 +1298,12 @@ def run_check(pid, tier, seed):
     # 2. broken tie: proof or correspondence
     if not res['violations']:
         broken = None
-        if not build_ok or not pinfo['ok'] or forbidden:
+        if not pinfo['ok'] or forbidden:
+            errs = re.findall(r'(?:translate: [^\n]*\n|File "[^"]+", line[^\n]*\n(?:[^\n]*\n){0,14})', build_log)
             broken = dict(property=pid, kind='proof obligation does not check',
                           theorem_file='coq/theories/Props/%s.v' % pid, theorems=pinfo['theorems'],
-                          forbidden=forbidden, log=(build_log[-1500:] + '\n' + pinfo['log'][-1500:]))
+                          forbidden=forbidden, first_errors=[e[:1200] for e in errs[:3]],
+                          log=(build_log[-1500:] + '\n' + pinfo['log'][-1500:]))
         elif not mok:
             broken = dict(property=pid, kind='model extraction/build failed', log=mlog[-2000:])
         elif not hok:
@@ -1312,6 +1340,11 @@ def run_check(pid, tier, seed):
         known_findings_seen=[k['finding']['id'] for k in res['known'].values()],
         errors=res['errors'][:5], forbidden_constructs=forbidden,
     )
+    cov['model_regenerated_from_source'] = dict(
+        translator='translate/main.go (Go subset -> Gallina), run on /repo before every build',
+        files=sorted(os.path.relpath(f, ROOT) for f in glob.glob(os.path.join(GENERATED, '*.v'))),
+        status=('ok' if not build_log.startswith('translate: ') else build_log.split('\n\n')[0][:600]),
+        tie_theorems=[t for t in pinfo['theorems'] if '_source_' in t])
     cov.update(res['extra'])
     ev = dict(property_id=pid, tier=tier, seed=seed, level='proof', coverage=cov,
               assumptions=spec.get('assumptions', []), wall_s=round(wall, 1),
